@@ -57,7 +57,8 @@ for sid in sorted(os.listdir(os.path.join(ROOT, "seeded"))):
         why_it_breaks_the_property=pick(sec, "why")[:2500],
         needs_to_manifest=pick(sec, "needs")[:2500],
         demonstration="demo.py (run with PYTHONPATH=<tree>): exits 1 on a tree with patch.diff applied, 0 on the unchanged tree",
-        confirmed_by_me=["tools/confirm_seed.sh %s: patch applies to /repo, demo.py fails with it and passes after git apply -R" % sid,
+        confirmed_by_me=[("tools/confirm2.sh %s: fresh scratch worktree of /repo HEAD; demo.py exits 0 before and 1 after git apply patch.diff" % pid) if sid != pid else
+                         "tools/confirm_seed.sh %s: patch applies to /repo, demo.py fails with it and passes after git apply -R" % sid,
                          "the repository's 273 tests pass with the patch applied (baseline command of /root/.vp/BASELINE.json)"],
         checks_run=runs,
         caught_by=[r["check"] for r in runs if r["caught"]],
